@@ -31,12 +31,14 @@ namespace sim
     bool          digests;      // print one DIGEST line per run (C17)
     bool          trace_all;
     bool          print_hist;
+    bool          twin;         // twin replay (C13): seeds independent of the universe, sources of
+                                // moves are cleared by the history, no faults
 
     job (void)
       : universe ("all"), mode ("storm"), prop (0), seed_base (1), run_lo (0), run_hi (1),
         faults (false), nops (24), samples (3), pairs (false), sweep_mask (MASK_ALL),
         replay_idbits (0), replay_valmod (120), replay_stream_faults (true), long_n (100000),
-        digests (false), trace_all (false), print_hist (false)
+        digests (false), trace_all (false), print_hist (false), twin (false)
     { }
   };
 
@@ -258,6 +260,7 @@ namespace sim
       e.cfg.stream_faults = stream_faults;
       e.cfg.count_mask1   = jb.mode == "sweep" ? jb.sweep_mask : MASK_ALL;
       e.cfg.count_mask2   = MASK_ALL;
+      e.cfg.clear_moved_from = jb.twin;
       e.known.clear ();
       e.known_hits.assign (jb.known.size (), 0);
       for (std::size_t i = 0; i < jb.known.size (); ++i)
@@ -381,7 +384,7 @@ namespace sim
       for (std::uint64_t i = jb.run_lo; i < jb.run_hi && ! tt.stop; ++i)
       {
         tt.next_index = i + 1;
-        const std::uint64_t seed = mix3 (jb.seed_base, uid, i);
+        const std::uint64_t seed = mix3 (jb.seed_base, jb.twin ? 777u : uid, i);
         rng r (seed);
         const std::uint32_t idbits  = r.below (16);
         const std::uint32_t vsel    = r.below (4);
